@@ -543,7 +543,7 @@ mksection .text
         vmovdqa64       XWORD(%%ZT0), [%%ARG + _docsis_crc_args_done]
         vmovdqu64       YWORD(%%ZT1), [%%ARG + _docsis_crc_args_len]
         vpcmpeqb        %%KREG2, XWORD(%%ZT0), [rel crc_state_in_progress_x16]
-        vpcmpgtw        %%KREG1, YWORD(%%ZT1), [rel dw_15_x16]
+        vpcmpuw         %%KREG1, YWORD(%%ZT1), [rel dw_15_x16], 6 ; unsigned >: lengths go up to 65534
         kandw           %%KREG1, %%KREG1, %%KREG2       ;; KREG1 = in_progress && >= 16
         kxorw           %%KREG2, %%KREG2, %%KREG1       ;; KREG2 = in_progress && < 16
         ktestw          %%KREG1, %%KREG1
